@@ -426,7 +426,80 @@ def case_regex(case):
     return core.ok(key=expr, outcome=got, violations=vs)
 
 
+def case_fit(case):
+    """Result.optimized_parameters and every row of Result.parameter_history: each expression parameter equals its
+    expression on the free values of the same row (a real fit of a four-rate parallel decay; two rates are free, two are
+    expressions; every declaration order)"""
+    import warnings
+
+    from glotaran.optimization.optimize import optimize
+    from glotaran.parameter import Parameter
+    from glotaran.parameter import Parameters
+
+    from vf.gen import builtin_models as B
+
+    exprs = {"r.c": case["exprs"][0], "r.d": case["exprs"][1]}
+    start = {"r.a": 0.31, "r.b": 1.7}
+    ps = {}
+    for lab in case["order"]:
+        if lab in exprs:
+            ps[lab] = Parameter(label=lab, expression=exprs[lab])
+        else:
+            ps[lab] = Parameter(label=lab, value=start[lab], non_negative=bool(case.get("nonneg")) and lab == "r.a")
+    params = Parameters(ps)
+    md = {"megacomplex": {"m": {"type": "decay-parallel", "compartments": ["s1", "s2", "s3", "s4"], "rates": ["r.a", "r.b", "r.c", "r.d"]}},
+          "dataset": {"d1": {"megacomplex": ["m"]}}}  # fmt: skip
+    t = np.concatenate([np.linspace(0.0, 2.0, 15), np.geomspace(2.5, 40.0, 10)])
+    data = {"d1": B.noisy_dataset(t, np.array([1.0, 2.0, 3.0]), seed=5, salt="c12fit")}
+    from glotaran.project import Scheme
+
+    scheme = Scheme(model=B.make_model(md), parameters=params, data=data, maximum_number_function_evaluations=case["nfev"],
+                    optimization_method=case["method"], add_svd=False)  # fmt: skip
+    with warnings.catch_warnings():
+        warnings.simplefilter("ignore")
+        try:
+            res = optimize(scheme, verbose=False, raise_exception=True)
+        except (ValueError, FloatingPointError, np.linalg.LinAlgError) as e:
+            return core.ood("fit-raised-" + type(e).__name__)
+
+    def want(vals):
+        env = {"a": vals["r.a"], "b": vals["r.b"]}
+        out = {}
+        for _ in range(2):  # two expression parameters: two passes are a topological evaluation
+            for lab, ex in exprs.items():
+                try:
+                    out[lab] = eval(ex.replace("$r.", ""), {"__builtins__": {}}, {**env, **{k[2:]: v for k, v in out.items()}})  # noqa: S307
+                except NameError:
+                    pass
+        return out
+
+    vs = []
+    got = {p.label: float(p.value) for p in res.optimized_parameters.all()}
+    w = want(got)
+    for lab in exprs:
+        if got[lab] != w[lab]:
+            vs.append(V("expression-parameter-value-differs-from-reference/result-optimized-parameters", label=lab, got=got[lab],
+                        want=w[lab], relative=abs(got[lab] - w[lab]) / abs(w[lab])))  # fmt: skip
+    labels = list(res.parameter_history.parameter_labels)[1:]
+    for r, row in enumerate(np.asarray(res.parameter_history.parameters, dtype=float)):
+        vals = dict(zip(labels, [float(x) for x in row[1:]]))
+        w = want(vals)
+        for lab in exprs:
+            if vals[lab] != w[lab]:
+                vs.append(V("expression-parameter-value-differs-from-reference/result-history-row", label=lab, row=r,
+                            rows=len(res.parameter_history.parameters), got=vals[lab], want=w[lab]))  # fmt: skip
+                break
+        else:
+            continue
+        break
+    return core.ok(key=[case["exprs"], case["order"], case["method"], case.get("nonneg", False)], outcome=[bool(res.success), len(vs)], violations=vs)
+
+
+FIT_EXPRS = [["$r.a + $r.b", "$r.c * 2"], ["$r.d + $r.a", "$r.b * 3"], ["$r.a * 2", "$r.b + $r.a"], ["$r.b + 0.5", "$r.c + $r.b"]]
+
+
 CASE_FUNCS = {
+    "fit": case_fit,
     "graph_histories": case_graph_histories,
     "history": case_history,
     "construct": case_construct,
@@ -485,6 +558,16 @@ def run(run: core.Run):
         "reserved asteval names are not valid labels and are excluded",
     ]
     run.map("regex", regex_cases())
+    # (0) the optimiser's own updates: results and history rows of real fits
+    fits = []
+    for ex in FIT_EXPRS:
+        for order in itertools.permutations(["r.a", "r.b", "r.c", "r.d"]):
+            if quick and order not in (("r.a", "r.b", "r.c", "r.d"), ("r.d", "r.c", "r.b", "r.a"), ("r.c", "r.a", "r.d", "r.b")):
+                continue
+            for method in ("TrustRegionReflection", "Dogbox", "Levenberg-Marquardt"):
+                for nonneg in (False, True):
+                    fits.append({"exprs": ex, "order": list(order), "method": method, "nfev": 4 if quick else 7, "nonneg": nonneg})
+    run.map("fit", fits)
     # (1) histories on all graphs n <= 4
     cases = []
     for n in range(1, hist_n + 1):
